@@ -47,6 +47,7 @@ LEVEL_TEXT = (
     "handed to _reattach_coords has the target dimension's name and carries no coordinate of the abandoned position (coordinates tracked through xarray's coordinate API). Coordinate values, attributes and the result's name are xarray's doing (not decided)."
     " Also decided: the arrays handed to xarray.apply_ufunc are the caller's, carried by DataArray methods (necessary for keeping the name); a multi-axis operation hands keep_coords to every axis; only the constructor binds the grid's dataset."
 )
+LEVEL_TEXT += " Also decided: _reattach_coords evaluated as apply_as_grid_ufunc calls it (padded, zero widths, no widths) puts the grid's coordinates on every dimension of the result."
 LEVEL_NOTE = "Trusted: xarray coordinate API. The behavioural clauses on values/attrs/name are outside static reach."
 
 AX, AY = Sym("AX"), Sym("AY")
